@@ -576,3 +576,125 @@ def small_graphs_exhaustive(case, ctx):
   require(list(fs.paths) == [p for p, _ in ref], 'state order')
   _, nt = label_graph(root)
   ctx.note(nontrivial=nt)
+
+
+# ----------------------------------------------------------------------------
+# graph attributes that are generic pytree containers (namedtuple,
+# OrderedDict, struct dataclass) whose field order is not the sorted order
+import collections as _collections
+from flax import struct as _struct
+
+_NT = _collections.namedtuple('_NT', ['weight', 'bias', 'aux'])
+
+
+@_struct.dataclass
+class _SD:
+  zeta: object
+  alpha: object
+  mode: str = _struct.field(pytree_node=False, default='m')
+
+
+class _PH(nnx.Module):
+  pass
+
+
+_PT_TYPES = [nnx.Param, nnx.BatchStat, nnx.Cache]
+
+
+def _describe(x):
+  if isinstance(x, nnx.Variable):
+    return ('var', type(x).__name__, np.asarray(x.raw_value).tobytes(),
+            tuple(sorted((k, repr(v)) for k, v in x.get_metadata().items())))
+  if isinstance(x, _NT):
+    return ('NT', tuple((f, _describe(v)) for f, v in zip(x._fields, x)))
+  if isinstance(x, _collections.OrderedDict):
+    return ('OD', tuple((k, _describe(v)) for k, v in x.items()))
+  if isinstance(x, _SD):
+    return ('SD', x.mode, _describe(x.zeta), _describe(x.alpha))
+  if isinstance(x, (list, tuple)):
+    return (type(x).__name__, tuple(_describe(v) for v in x))
+  if isinstance(x, dict):
+    return ('dict', tuple((k, _describe(v)) for k, v in sorted(x.items())))
+  if isinstance(x, nnx.Module):
+    return ('mod', type(x).__name__, tuple(
+        (k, _describe(v)) for k, v in sorted(vars(x).items())
+        if k != '_object__state'))
+  if isinstance(x, (jax.Array, np.ndarray)):
+    return ('arr', np.asarray(x).tobytes())
+  return ('static', repr(x))
+
+
+@clause('pytree_nodes',
+        strategy=lambda: st.fixed_dictionaries({
+            'kinds': st.lists(st.sampled_from(['nt', 'od', 'sd']), min_size=1,
+                              max_size=3),
+            'place': st.sampled_from(['attr', 'list', 'child', 'dict']),
+            'perm': st.integers(0, 5), 'share': st.booleans(),
+            'op': st.sampled_from(['split_merge', 'clone', 'filtered',
+                                   'filtered_swapped', 'update']),
+            'seed': st.integers(0, 2**16)}),
+        quick=300, thorough=10000, quick_shards=8, thorough_shards=16,
+        shrink=False,
+        rule='modules holding 1-3 generic pytree containers (namedtuple with '
+        'fields weight/bias/aux, OrderedDict with keys z/a/m, a struct '
+        'dataclass with fields zeta/alpha and a static field: declaration '
+        'order != sorted order) of Variables of three types with metadata, '
+        'as attribute / inside a list / dict / on a child module, optionally '
+        'sharing one Variable between two fields: merge(split(g)), clone(g), '
+        'merge over a filtered split in either State order and update(g, '
+        'state(g)) give containers of the same type whose every field holds '
+        'a Variable of the same type, value and metadata as before; '
+        'non-trivial = always (field order differs from key order)')
+def pytree_nodes(case, ctx):
+  rng = np.random.default_rng(case['seed'])
+  order = list(itertools.permutations(range(3)))[case['perm']]
+
+  def var(i, tag):
+    T = _PT_TYPES[order[i % 3]]
+    return T(jnp.asarray(rng.integers(-9, 9, size=(2,)), jnp.float32) + i,
+             tag=f'{tag}{i}')
+  root = _PH()
+  shared = var(0, 's') if case['share'] else None
+  for j, kind in enumerate(case['kinds']):
+    vs = [var(i, kind) for i in range(3)]
+    if shared is not None and j == 0:
+      vs[2] = shared
+    if kind == 'nt':
+      c = _NT(weight=vs[0], bias=vs[1], aux=vs[2])
+    elif kind == 'od':
+      c = _collections.OrderedDict([('z', vs[0]), ('a', vs[1]), ('m', vs[2])])
+    else:
+      c = _SD(zeta=vs[0], alpha=vs[1], mode=f'mode{case["seed"] % 3}')
+      if shared is not None and j == 0:
+        root.extra = shared
+    place = case['place']
+    if place == 'attr':
+      setattr(root, f'c{j}', c)
+    elif place == 'list':
+      setattr(root, f'c{j}', [c, vs[0]] if kind != 'sd' else [c])
+    elif place == 'dict':
+      setattr(root, f'c{j}', {'q': c})
+    else:
+      ch = _PH()
+      ch.inner = c
+      setattr(root, f'c{j}', ch)
+  before = _describe(root)
+  op = case['op']
+  with sut(op):
+    if op == 'split_merge':
+      new = nnx.merge(*nnx.split(root))
+    elif op == 'clone':
+      new = nnx.clone(root)
+    elif op in ('filtered', 'filtered_swapped'):
+      gd, a, b = nnx.split(root, nnx.Param, ...)
+      new = nnx.merge(gd, a, b) if op == 'filtered' else nnx.merge(gd, b, a)
+    else:
+      nnx.update(root, nnx.state(root))
+      new = root
+  after = _describe(new)
+  require(after == before, lambda: f'{op} changed a module holding pytree '
+          f'containers {case["kinds"]} ({case["place"]}): before {before}, '
+          f'after {after}')
+  require(_describe(root) == before, f'{op} changed its argument')
+  ctx.note(labels=[op, case['place']] + sorted(set(case['kinds'])),
+           nontrivial=True)
